@@ -38,7 +38,8 @@ INVARIANT Committed
 CHECK_DEADLOCK FALSE
 """
 CHAINS = [None, [{"id": 0x33}], [{"id": 0x21, "preset": 1}], [{"id": 0x32}], [{"id": 0x31}], [{"id": 3, "dist": 2}, {"id": 0x21, "preset": 1}],
-          [{"id": 4}, {"id": 0x4000000000000001, "preset": 1}], [{"id": 0x35, "level": 1}], [{"id": 0x36, "order": 4, "mem": 16}]]
+          [{"id": 4}, {"id": 0x4000000000000001, "preset": 1}], [{"id": 0x35, "level": 1}], [{"id": 0x36, "order": 4, "mem": 16}],
+          [{"id": 0x38}]]          # Deflate64
 
 
 def execute(case):
